@@ -85,6 +85,13 @@ pub fn oracle_ex(spec_: &RespSpec, m: &Mutated, head_len: usize, case: &RespCase
     };
     for (i, ev) in out.events.iter().enumerate() {
         match ev {
+            // the text family returns the DECODING of what it read: only its verdict is judged here
+            Ev::Ok(_) if matches!(&case.reads, Reads::Drain(h) if crate::resp::is_text_drain(*h)) => {
+                if !complete {
+                    return Err((format!("clean-eof-{}", tag), format!("text() / text_with() / text_reader() / text_utf8() returned Ok although the frame is {:?} with {} payload bytes", exp.end, exp.payload.len())));
+                }
+                got = exp.payload.clone();
+            }
             Ev::Ok(bs) => {
                 got.extend_from_slice(bs);
                 if !exp.payload.starts_with(&got) {
@@ -288,8 +295,17 @@ pub fn generate(seed: u64, tier: &str, sink: &mut Sink) {
             }
             for m in muts {
                 let payload_len = m.arrived.len();
-                let reads = if rng.chance(1, 5) {
-                    Reads::Drain(*rng.pick(&[crate::resp::DRAIN_BYTES, crate::resp::DRAIN_WRITE_TO, crate::resp::DRAIN_SPLIT]))
+                let reads = if rng.chance(1, 3) {
+                    // every convenience reader in turn: a cut body is an error through each of them
+                    Reads::Drain(*rng.pick(&[
+                        crate::resp::DRAIN_BYTES,
+                        crate::resp::DRAIN_WRITE_TO,
+                        crate::resp::DRAIN_SPLIT,
+                        crate::resp::DRAIN_TEXT,
+                        crate::resp::DRAIN_TEXT_WITH,
+                        crate::resp::DRAIN_TEXT_READER,
+                        crate::resp::DRAIN_TEXT_UTF8,
+                    ]))
                 } else if rng.chance(1, 5) {
                     // the BufRead view of the body reader (what the content decoders drive), mixed with read()
                     let tail = crate::p_c01::pieces(&spec_, m.segs.len(), max_buf) + payload_len / 8192 + 3;
